@@ -10,12 +10,12 @@ from harness import util, core
 THEOREMS = [
     'C06_gen_complete',
     'C06_order_euler', 'C06_order_cn_rk2', 'C06_order_cn_rk3', 'C06_order_cn_rk4', 'C06_order_sil3',
-    'C06_rk4_near_carpenter_kennedy',
+    'C06_order_decider_sound', 'C06_rk4_near_carpenter_kennedy',
     'C06_linear_taylor_series', 'C06_leapfrog_second_order_series',
-    'C06_imex_is_ark', 'C06_lowstorage_is_ark_linear_partial',
+    'C06_imex_is_ark', 'C06_stepfn_is_ark_linear_series_partial',
     'C06_reduces_to_explicit', 'C06_reduces_to_implicit',
     'C06_A_stable_backward_euler', 'C06_A_stable_cn_lowstorage', 'C06_A_stable_cn_rk2',
-    'C06_A_stable_sil3', 'C06_A_stable_leapfrog',
+    'C06_A_stable_leapfrog', 'C06_A_stable_leapfrog_default',
     'C06_lengths_validated', 'C06_tableau_validated',
     'C06_hyps_satisfiable',
 ]
@@ -23,13 +23,16 @@ LEVEL = 'proof'
 LEVEL_TEXT = ('machine-checked theorems (Coq) on the coefficients regenerated from time_integration.py each run: '
               'additive-RK order conditions (exact, or |residual| <= 1e-13 for the 13-digit decimals) up to the design '
               'order and failure of the next order; bivariate Taylor coefficients of the linear one-step multiplier '
-              '(formal power series); zero-skipping/lazy imex interpreter = additive RK step for every tableau; '
-              'reduction to the explicit / implicit scheme; |r(0,z)| <= 1 for all Re z <= 0 over the reals '
-              '(backward Euler, every Crank-Nicolson chain with non-decreasing alphas, SIL3 certificate, leapfrog); '
+              '(formal power series); imex_runge_kutta interpreter (zero skipping, lazy stages) = additive RK step for every '
+              'tableau; reduction to the explicit / implicit scheme (Euler pair, CN-RK2, every low-storage '
+              'coefficient set); |r(0,z)| <= 1 for all Re z <= 0 over the reals (backward Euler, CN-RK2, every '
+              'Crank-Nicolson chain with non-decreasing alphas incl. the generated RK3/RK4 sets, leapfrog alpha >= 1/2); '
               'length validation accepts exactly the consistent shapes; model executed against the implementation')
 LEVEL_NOTE = ('theorems are about Model/Integrators.v with the coefficients of Gen/Tableaux.v (translated from the source '
               'each run); "order conditions => order for every smooth F" (Butcher / Kennedy-Carpenter) is cited, not '
-              'formalised; nonlinear order is additionally measured on the implementation by step halving')
+              'formalised; nonlinear order is additionally measured on the implementation by step halving; NOT proved in Coq '
+              '(dynamic evidence only): A-stability of SIL3; low-storage step = additive RK step of its Butcher form '
+              'for nonlinear F (proved for the linear test equation as a series identity only)')
 TECHNIQUE = ('Coq theorems over an executable Gallina model with source-regenerated tableaux + differential '
              'correspondence (extracted OCaml vs implementation) + oracles on the implementation')
 
@@ -81,12 +84,12 @@ def generate(ctx):
     yield 'translator', {}
     # dyadic step sizes with short mantissas keep the exact rational model fast
     dts = [2.0 ** -10, 2.0 ** -7, 0.125, 0.5, 1.0, 2.0, 8.0, 128.0, 1024.0]
-    reps = 2 if quick else 8
+    reps = 2 if quick else 4
     for scheme in range(6):
         for d in (1, 2, 3):
             for r in range(reps):
                 for dt in dts:
-                    if quick and scheme == 4 and d == 3 and (r > 0 or dt not in (2.0 ** -7, 1.0, 128.0)):
+                    if scheme == 4 and d == 3 and (r > (0 if quick else 1) or (quick and dt not in (2.0 ** -7, 1.0, 128.0))):
                         continue      # exact-rational cost of the 13-digit 5-stage scheme in 3-D
                     # (the 5-stage scheme with 13-digit decimals squares the size of the exact
                     #  rationals at every stage: nonlinear F only in one dimension there)
